@@ -11,6 +11,7 @@
                               statement (a constructed-but-not-thrown exception is an expression statement)
   uncheckedTokenAccess        some `tokens[…]` / `split[…]` access bypasses `.at()`
   nextLineChecked             every next-line read goes through `lines_.at(++i_)`
+  strictNumbers / exactCounts the conversions check std::stoul/std::stod's `pos` against the token length; the entry forms check the token count
   nanDiscountRejected         MDP::Model::setDiscount's guard is written so that NaN fails it (src/MDP/Model.cpp)
   sizeGuard                   parseMDP / parsePOMDP call `checkExtent(S, A, S)` (and `(S, A, O)`) before resizing the
                               tables, and checkExtent has the overflow-safe shape the model assumes
@@ -181,6 +182,38 @@ def gen_c18():
     else:
         raise E.ExtractError('MDP::Model::setDiscount: unrecognised guard ' + g)
 
+    # number conversions: whole-token (pos checked) or longest-prefix
+    convs = re.findall(r'std::(stoul|stod)\s*\(([^;]*?)\)\s*;', src)
+    if not convs:
+        raise E.ExtractError('no std::stoul / std::stod conversion found')
+    with_pos = [c for c in convs if re.search(r',\s*&\s*pos\b', c[1])]
+    if len(with_pos) == 0:
+        strict = False
+    elif len(with_pos) == len(convs):
+        # every conversion sits in a helper that compares pos with the token length and throws
+        helpers = re.findall(r'(?:size_t|double)\s+(\w+)\s*\(\s*const\s+std::string\s*&\s*(\w+)\s*\)\s*\{(.*?)\n        \}', src, re.S)
+        good = [h for h in helpers if re.search(r'std::(stoul|stod)\s*\(\s*' + h[1] + r'\s*,\s*&\s*pos\s*\)', h[2])
+                and re.search(r'if\s*\(\s*pos\s*!=\s*' + h[1] + r'\.size\(\)\s*\)\s*throw', h[2])]
+        if len(good) != len(convs):
+            raise E.ExtractError('conversions use &pos but not all sit in a helper that throws on pos != size: ' + repr([h[0] for h in helpers]))
+        strict = True
+    else:
+        raise E.ExtractError('mixed use of std::stoul/std::stod with and without the pos check')
+    ex_m = bool(re.search(r'if\s*\(\s*tokens\.size\(\)\s*!=\s*5\s*\)\s*throw', pm))
+    ex_r = bool(re.search(r'if\s*\(\s*tokens\.size\(\)\s*!=\s*6\s*\)\s*throw', pr))
+    if ex_m != ex_r:
+        raise E.ExtractError('exact token count checked in only one of processMatrix / processReward')
+
+    # what a parse resets on the parser object (the model's `resetPre` / `parseWith`)
+    pmi, pmi_ln = body_of(src, r'void\s+CassandraParser::parseModelInfo\s*\(\s*std::istream\s*&\s*input\s*\)\s*\{', 'parseModelInfo')
+    head = pmi[:pmi.index('getline')] if 'getline' in pmi else pmi
+    resets_lines = bool(re.search(r'lines_\s*\.\s*clear\s*\(\s*\)', head))
+    resets_sizes = all(re.search(r'\b' + v + r'\s*=\s*0\b', head) for v in ('S_', 'A_', 'O_'))
+    resets_disc = bool(re.search(r'discount_\s*=\s*1\.0\b', head))
+    ex, ex_ln = body_of(src, r'size_t\s+CassandraParser::extractIDs\s*\([^)]*\)\s*\{', 'extractIDs')
+    first_stmt = ex.strip('{} \n\t').split(';')[0]
+    clears_map = norm(first_stmt) == 'map.clear()'
+
     b = lambda x: 'true' if x else 'false'
     strs = lambda l: '[' + ', '.join('"%s"' % x for x in l) + ']'
     body = f'''/- GENERATED by tools/extract_c18.py from {REL} — do not edit. -/
@@ -222,8 +255,20 @@ def pomdpCtorArgs : List String := {strs(p_call)}
 /-- src/MDP/Model.cpp:{sd_ln} the guard of `Model::setDiscount` is false for NaN (`{g}`) -/
 def nanDiscountRejected : Bool := {b(nan_rej)}
 
+/-- every std::stoul / std::stod sits in a helper that throws unless the whole token was converted (`pos == size`) -/
+def strictNumbers : Bool := {b(strict)}
+/-- the single-entry forms check `tokens.size() != 5` (T/O) and `!= 6` (R) -/
+def exactCounts : Bool := {b(ex_m)}
+
+/-- {REL}:{pmi_ln} parseModelInfo resets, before reading, `lines_` / the three sizes / the discount (the name tables are not touched there) -/
+def resetsLines : Bool := {b(resets_lines)}
+def resetsSizes : Bool := {b(resets_sizes)}
+def resetsDiscount : Bool := {b(resets_disc)}
+/-- {REL}:{ex_ln} extractIDs starts with `map.clear()`: a declaration line replaces the whole name table -/
+def extractClearsMap : Bool := {b(clears_map)}
+
 /-- the flags the operational model runs with -/
-def flags : AITB.Cassandra.Flags := ⟨rowLenThrows, sizeGuard, nanDiscountRejected⟩
+def flags : AITB.Cassandra.Flags := ⟨rowLenThrows, sizeGuard, nanDiscountRejected, strictNumbers, exactCounts⟩
 
 end AITB.Gen.Dispatch
 '''
